@@ -17,7 +17,13 @@ tmp = tempfile.mkdtemp(prefix='seed_', dir='/tmp')
 out = dict(name=name, checks={})
 try:
   dst = os.path.join(tmp, 'repo')
-  shutil.copytree('/repo', dst, ignore=shutil.ignore_patterns('.git', '__pycache__', 'doc', 'bench', 'examples'))
+  commit = opt('--commit')
+  if commit:      # an older commit of /repo instead of its working tree
+    os.makedirs(dst)
+    subprocess.run('git -C /repo archive %s | tar -x -C %s' % (commit, dst), shell=True, check=True)
+    out['base_commit'] = commit
+  else:
+    shutil.copytree('/repo', dst, ignore=shutil.ignore_patterns('.git', '__pycache__', 'doc', 'bench', 'examples'))
   env = dict(os.environ, PYTHONPATH=dst, OMP_NUM_THREADS='1', PYTHONDONTWRITEBYTECODE='1')
   # the script's own directory is sys.path[0]; assertions that pin the sub-agent's worktree path are neutralised
   import re
